@@ -35,7 +35,7 @@ RULE = (
 )
 ASSUMPTIONS = ["netCDF4 (the library) is trusted to read back what it wrote", "results written together share one shape (the writer validates it)"]
 
-NP = {"f8": numpy.float64, "f4": numpy.float32, "i8": numpy.int64, "i4": numpy.int32}
+NP = {"f8": numpy.float64, "f4": numpy.float32, "i8": numpy.int64, "i4": numpy.int32, "i2": numpy.int16}
 
 
 def make_template(path, dims, variables=(), crs=None):
@@ -50,7 +50,13 @@ def make_template(path, dims, variables=(), crs=None):
             name = d["name"]
             ds.createDimension(name, d["size"])
             v = ds.createVariable(name, d.get("dtype", "f8"), (name,))
-            v[:] = numpy.array(d["values"], dtype=NP[d.get("dtype", "f8")])
+            if d.get("packed"):
+                # CF packing: stored integers, decoded as stored * scale_factor + add_offset
+                for k, val in d["packed"].items():
+                    v.setncattr(k, val)
+                v[:] = numpy.array(d["values"], dtype="f8")
+            else:
+                v[:] = numpy.array(d["values"], dtype=NP[d.get("dtype", "f8")])
             for k, val in d.get("attrs", {}).items():
                 v.setncattr(k, val)
             names.append(name)
@@ -125,10 +131,23 @@ def check_write(case, rec):
         for a in arrays:
             union |= numpy.ma.getmaskarray(a)
         fails = []
-        with Dataset(out) as ds:
+        with Dataset(out) as ds, Dataset(tpl) as tds:
             for d in dims:
                 if d["name"] not in ds.variables:
                     fails.append(Failure(sig + "|dimension_variable_missing", d["name"]))
+                    continue
+                # copied unchanged: the same stored numbers of the same element type, decoding to the same coordinates
+                vo, vt = ds[d["name"]], tds[d["name"]]
+                decoded_o, decoded_t = numpy.ma.getdata(vo[:]).tolist(), numpy.ma.getdata(vt[:]).tolist()
+                vo.set_auto_maskandscale(False)
+                vt.set_auto_maskandscale(False)
+                if vo.dtype != vt.dtype or numpy.asarray(vo[:]).tolist() != numpy.asarray(vt[:]).tolist() or decoded_o != decoded_t:
+                    fails.append(Failure(sig + "|dimension_not_copied_unchanged", "%s: template %s %r (decoded %r), written %s %r (decoded %r)" % (
+                        d["name"], vt.dtype, numpy.asarray(vt[:]).tolist(), decoded_t, vo.dtype, numpy.asarray(vo[:]).tolist(), decoded_o)))
+                    continue
+                vo.set_auto_maskandscale(True)
+                if d.get("packed"):
+                    rec.label("packed_coordinate")
                     continue
                 v = ds[d["name"]]
                 got = numpy.ma.getdata(v[:])
@@ -280,10 +299,14 @@ def dims_(draw):
     out = []
     for i in range(rank):
         size = draw(st.integers(1, 5))
-        dtype = draw(st.sampled_from(["f8", "f8", "f4", "i4"]))
+        dtype = draw(st.sampled_from(["f8", "f8", "f4", "i4", "i8", "f8"]))
         start = draw(st.integers(-5, 5))
         step = draw(st.sampled_from([1, 2, -1]))
         values = [start + step * k for k in range(size)]
+        if dtype == "f8" and draw(st.booleans()):
+            values = [46.90118237 + 0.1 * x for x in values]  # not representable in single precision
+        if dtype == "i8" and draw(st.booleans()):
+            values = [2 ** 40 + x for x in values]  # not representable in 32 bits
         attrs = {}
         if draw(st.booleans()):
             attrs["units"] = draw(st.sampled_from(["m", "degrees_north", "days since 2000-01-01"]))
@@ -291,7 +314,11 @@ def dims_(draw):
             attrs["long_name"] = draw(st.sampled_from(["x coordinate", "latitude", "time"]))
         if draw(st.integers(0, 3)) == 0:
             attrs["scale"] = draw(st.sampled_from([1.5, 2, -3]))
-        out.append({"name": ["x", "y", "t"][i], "size": size, "dtype": dtype, "values": values, "attrs": attrs})
+        dim = {"name": ["x", "y", "t"][i], "size": size, "dtype": dtype, "values": values, "attrs": attrs}
+        if draw(st.integers(0, 4)) == 0:
+            dim.update(dtype=draw(st.sampled_from(["i2", "i4"])), packed=draw(st.sampled_from([{"scale_factor": 0.25, "add_offset": 40.0}, {"scale_factor": 0.5}, {"add_offset": -100.0}])),
+                       values=[40.0 + 0.5 * k for k in range(size)])
+        out.append(dim)
     return out
 
 
